@@ -120,7 +120,7 @@ _NATIVE_CODE = (
 ) % ROOT
 
 
-def _native_proc(jobs, timeout=1800):
+def _native_proc(jobs, timeout=900):
     env = dict(os.environ)
     env.pop("NUMBA_DISABLE_JIT", None)
     alt = os.environ.get("VERIF_STRAX_ROOT")
@@ -152,8 +152,24 @@ def native_batch(prop, jobs, nproc=4):
     js = [{"prop": prop, "ob": o, "params": p, "models": m} for o, p, m in jobs]
     nproc = max(1, min(nproc, len(js)))
     shares = [js[i::nproc] for i in range(nproc)]
+    def safe(share):
+        """one interpreter for the whole share; if that fails (a replay hangs or the interpreter dies - a broken
+        mailbox can deadlock real threads), replay the share's jobs one by one under a shorter limit so that the
+        others still yield their verdicts"""
+        try:
+            return _native_proc(share)
+        except Exception:  # noqa  (timeout / crashed interpreter)
+            out = []
+            for j in share:
+                try:
+                    out.append(_native_proc([j], timeout=300)[0])
+                except Exception as e:  # noqa
+                    out.append([{"ok": None, "detail": f"native replay did not finish: {type(e).__name__}"}
+                                for _ in (j["models"] or [None])])
+            return out
+
     with ThreadPoolExecutor(nproc) as tp:
-        outs = list(tp.map(_native_proc, shares))
+        outs = list(tp.map(safe, shares))
     res = [None] * len(js)
     for i, share in enumerate(outs):
         for k, o in enumerate(share):
